@@ -57,7 +57,7 @@ claimed.update({
                      "rotation task clears/notifies once, ignores superseded certificates, changed root announced once.",
                 note="Outside: certificate bytes, SDS gRPC service, file watchers, the real delay queue.", ref="§4 C18"),
     "C17": dict(text="Every canonicalising sort (configs, DestinationRules, Services) returns the same sequence for all 6 input permutations of 3 objects with symbolic creation times (ties allowed) and symbolic names; "
-                     "the comparator is antisymmetric/transitive/zero only on identical identity; EndpointShards.Keys is ordered for every map iteration order.",
+                     "the comparator is antisymmetric/transitive/zero only on identical identity; EndpointShards.Keys is ordered for every map iteration order; the real buildGatewayListeners, run twice on the same state under every map iteration order, emits the listeners in the same order.",
                 note="Outside: protobuf marshalling, ordering inside the big generators, cross-process identity.", ref="§4 C17"),
     "C19": dict(text="injectRequired decided against the documented precedence for every combination of hostNetwork, namespace vs ignored list, label/annotation presence and arbitrary values, 0-2 never/always selectors with arbitrary validity/emptiness/match, and arbitrary policy string.",
                 note="Outside: idempotent re-injection and container preservation (template/YAML/JSON-patch machinery).", ref="§4 C19"),
